@@ -28,6 +28,7 @@ type schedThread struct {
 	args     []string //
 	finished bool
 	started  bool
+	extBlock bool // resumed but silent: blocked on a lock that has no hook points
 	body     func()
 }
 
@@ -47,6 +48,7 @@ type scheduler struct {
 	memW     map[string]int   // unit -> writer thread
 	memR     map[string][]int // unit -> reader threads
 	trace    []string
+	extQuiet time.Duration                                     // >0: a resumed thread that stays silent this long is taken to be blocked on an unhooked lock
 	onPoint  func(t *schedThread, point string, args []string) // observer called when a thread reaches a point (in scheduler context)
 }
 
@@ -93,7 +95,7 @@ func (s *scheduler) launch(t *schedThread) {
 
 // enabled: may the thread be resumed from the point where it is parked without blocking for real?
 func (s *scheduler) enabled(t *schedThread) bool {
-	if t.finished {
+	if t.finished || t.extBlock {
 		return false
 	}
 	arg := ""
@@ -187,6 +189,21 @@ func (s *scheduler) run(r *xrun) schedResult {
 			return schedResult{trace: s.trace}
 		}
 		if len(en) == 0 {
+			// threads blocked on unhooked locks may still be on their way to the next point
+			waiting := false
+			for _, t := range s.threads {
+				if t.extBlock && !t.finished {
+					waiting = true
+				}
+			}
+			if waiting {
+				select {
+				case ev := <-s.events:
+					s.process(ev)
+					continue
+				case <-time.After(3 * time.Second):
+				}
+			}
 			var st []string
 			for _, t := range s.threads {
 				if !t.finished {
@@ -229,23 +246,42 @@ func (s *scheduler) run(r *xrun) schedResult {
 		cur = pick.id
 		r.steps++
 		pick.resume <- struct{}{}
-		var ev schedEvent
-		select {
-		case ev = <-s.events:
-		case <-time.After(20 * time.Second):
-			return schedResult{deadlock: true, stuck: fmt.Sprintf("thread %s did not reach the next hook point within 20 s after %s", pick.name, pick.point), trace: s.trace}
+		quiet := 20 * time.Second
+		if s.extQuiet > 0 {
+			quiet = s.extQuiet
 		}
-		t := s.threads[ev.tid]
-		if ev.finished {
-			t.finished = true
-			t.point = "done"
-			continue
+		for waitFor := pick.id; waitFor >= 0; {
+			select {
+			case ev := <-s.events:
+				s.process(ev)
+				if ev.tid == waitFor {
+					waitFor = -1
+				}
+			case <-time.After(quiet):
+				if s.extQuiet > 0 {
+					pick.extBlock = true
+					pick.point = "(blocked on an unhooked lock)"
+					waitFor = -1
+				} else {
+					return schedResult{deadlock: true, stuck: fmt.Sprintf("thread %s did not reach the next hook point within 20 s after %s", pick.name, pick.point), trace: s.trace}
+				}
+			}
 		}
-		t.point, t.args = ev.point, ev.args
-		s.reached(t, ev.point, ev.args)
-		if s.onPoint != nil {
-			s.onPoint(t, ev.point, ev.args)
-		}
+	}
+}
+
+func (s *scheduler) process(ev schedEvent) {
+	t := s.threads[ev.tid]
+	t.extBlock = false
+	if ev.finished {
+		t.finished = true
+		t.point = "done"
+		return
+	}
+	t.point, t.args = ev.point, ev.args
+	s.reached(t, ev.point, ev.args)
+	if s.onPoint != nil {
+		s.onPoint(t, ev.point, ev.args)
 	}
 }
 
